@@ -85,7 +85,7 @@ fn kernel_io(ranges: Vec<(usize, usize)>, count_arg: usize, write: bool) -> ssiz
     }
     let (ret, moved) = match resp {
         Resp::Partial(n) => {
-            let m = n.min(cap);
+            let m = if write { n.min(cap) } else { n.min(cap).min(k.stream.len() - k.pos) };
             let mut left = m;
             for (p, l) in &ranges {
                 if left == 0 {
@@ -240,7 +240,7 @@ fn gen_sockio(g: &mut Rng, _tier: Tier) -> J {
         "timeout_ms" => timeout_ms,
         "caller" => if g.chance(1, 2) { "thread" } else { "coroutine" },
         "stream_len" => *g.pick(&[0u64, 3, 40, 400]),
-        "sim" => gen_sim(g, SimOpts { max_points: 2_000_000, max_sim_ms: 60_000, ..SimOpts::default() }),
+        "sim" => gen_sim(g, SimOpts { max_points: 2_000_000, max_sim_ms: 60_000, timing: true, ..SimOpts::default() }),
     }
 }
 
@@ -364,11 +364,13 @@ fn body_sockio(plan: &J) {
     };
     // an unbounded wait needs a final answer
     let after = if !nonblocking && timeout_ms == 0 && after == Resp::WouldBlock { Resp::Eof } else { after };
+    let fix = |r: Resp| if write && r == Resp::Eof { Resp::Err(libc::EPIPE) } else { r };
+    let after = fix(after);
     *KERNEL.lock().unwrap_or_else(|e| e.into_inner()) = Some(Kernel {
         stream: (0..stream_len).map(stream_byte).collect(),
         pos: 0,
         sink: Vec::new(),
-        script: plan.ga("script").iter().map(resp_of).collect(),
+        script: plan.ga("script").iter().map(resp_of).map(fix).collect(),
         after,
         calls: Vec::new(),
         moved: 0,
@@ -401,17 +403,19 @@ fn body_sockio(plan: &J) {
     let sent_data: Vec<u8> = bufs.iter().flatten().copied().collect();
     let coroutine = plan.gs("caller") == "coroutine";
     let t0 = now();
-    let (r, e, bufs) = if coroutine {
+    let (r, e, bufs, elapsed) = if coroutine {
         let sb = Sh(bufs);
         let call2 = call.clone();
-        let out: std::sync::Arc<StdMutex<Option<(ssize_t, i32, Sh<Vec<Vec<u8>>>)>>> = std::sync::Arc::new(StdMutex::new(None));
+        let out: std::sync::Arc<StdMutex<Option<(ssize_t, i32, Sh<Vec<Vec<u8>>>, u64)>>> = std::sync::Arc::new(StdMutex::new(None));
         let out2 = out.clone();
         let h = EventLoops::submit_task(
             Some("io-task".into()),
             move |_| {
                 let mut b = sb;
+                let t = now();
                 let (r, e) = unsafe { do_call(&call2, fd, &mut b.0) };
-                *out2.lock().unwrap_or_else(|e| e.into_inner()) = Some((r, e, b));
+                let took = now() - t;
+                *out2.lock().unwrap_or_else(|e| e.into_inner()) = Some((r, e, b, took));
                 Some(1)
             },
             None,
@@ -419,16 +423,18 @@ fn body_sockio(plan: &J) {
         );
         match h.timeout_join(Duration::from_secs(50)) {
             Ok(Ok(_)) => {}
-            other => fail("hook-call-lost", format!("the task running the hooked {call} did not complete: {other:?}; {}", crate::child::last_panic())),
+            other => fail(if nonblocking { "nonblocking-waited" } else { "hook-call-lost" }, format!("the task running the hooked {call}{} did not complete within 50 s: {other:?}; {}", if nonblocking { " on an O_NONBLOCK descriptor" } else { "" }, crate::child::last_panic())),
         }
-        let (r, e, b) = out.lock().unwrap_or_else(|e| e.into_inner()).take().expect("result");
-        (r, e, b.0)
+        let (r, e, b, took) = out.lock().unwrap_or_else(|e| e.into_inner()).take().expect("result");
+        (r, e, b.0, took)
     } else {
         let mut b = bufs;
+        crate::child::set_stuck_limit_ns(20_000_000_000);
+        crate::child::mon_enter(&format!("{}|hooked {call} (kernel keeps answering would-block)", if nonblocking { "nonblocking-waited" } else { "hook-call-lost" }));
         let (r, e) = unsafe { do_call(&call, fd, &mut b) };
-        (r, e, b)
+        crate::child::mon_exit();
+        (r, e, b, now() - t0)
     };
-    let elapsed = now() - t0;
     let flags_after = unsafe { libc::fcntl(fd, libc::F_GETFL) };
     let g = KERNEL.lock().unwrap_or_else(|e| e.into_inner());
     let k = g.as_ref().expect("kernel");
@@ -588,7 +594,7 @@ fn gen_sockopt(g: &mut Rng, tier: Tier) -> J {
     obj! {
         "ops" => J::Arr(ops),
         "caller" => if g.chance(1, 3) { "coroutine" } else { "thread" },
-        "sim" => gen_sim(g, SimOpts { max_points: 2_000_000, max_sim_ms: 120_000, ..SimOpts::default() }),
+        "sim" => gen_sim(g, SimOpts { max_points: 2_000_000, max_sim_ms: 120_000, timing: true, ..SimOpts::default() }),
     }
 }
 
@@ -611,6 +617,9 @@ fn sockopt_ops(ops: &[J]) {
     let mut slots: [Option<(c_int, c_int)>; 3] = [None, None, None];
     let mut io_done: [bool; 3] = [false; 3];
     let mut sets: [u32; 3] = [0; 3];
+    // what the caller last asked for, per slot and direction: the kernel stores it rounded up to its
+    // own tick (1 ms becomes 4 ms at HZ=250), and either value is the socket's "current option"
+    let mut asked: [[Option<u64>; 2]; 3] = [[None; 2]; 3];
     let mut closed_numbers: Vec<c_int> = Vec::new();
     for (oi, op) in ops.iter().enumerate() {
         let a = op.arr();
@@ -625,6 +634,7 @@ fn sockopt_ops(ops: &[J]) {
                     slots[s] = Some(p);
                     io_done[s] = false;
                     sets[s] = 0;
+                    asked[s] = [None; 2];
                 }
             }
             "setopt" => {
@@ -642,6 +652,7 @@ fn sockopt_ops(ops: &[J]) {
                     probe("opt.set-twice");
                 }
                 sets[s] += 1;
+                asked[s][a[2].us() % 2] = Some(if ms == 0 { u64::MAX } else { ms * 1_000_000 });
                 let r = hk::setsockopt(None, fd, libc::SOL_SOCKET, opt, std::ptr::from_ref(&tv).cast(), size_of::<libc::timeval>() as socklen_t);
                 if r != 0 {
                     fail("setsockopt-failed", format!("op {oi}: hooked setsockopt on a live socket returned {r} errno {}", errno_get()));
@@ -670,7 +681,7 @@ fn sockopt_ops(ops: &[J]) {
                 let Some((fd, _)) = slots[s] else { continue };
                 let (opt, got) = if a[2].u() == 0 { (libc::SO_RCVTIMEO, hk::recv_time_limit(fd)) } else { (libc::SO_SNDTIMEO, hk::send_time_limit(fd)) };
                 let want = real_limit(fd, opt);
-                if got != want {
+                if got != want && Some(got) != asked[s][a[2].us() % 2] {
                     fail(
                         "limit-stale",
                         format!("op {oi}: the hook applies a {} limit of {got} ns to descriptor {fd}, the socket's current option is {want} ns (u64::MAX = unlimited)", if a[2].u() == 0 { "receive" } else { "send" }),
@@ -701,7 +712,8 @@ fn sockopt_ops(ops: &[J]) {
                 if r != -1 {
                     fail("count-wrong", format!("op {oi}: silent hooked recv returned {r} errno {e}"));
                 }
-                if dt < want || dt > want + 3 * SLICE_NS + want / 50 {
+                let lo = want.min(asked[s][0].unwrap_or(want));
+                if dt < lo || dt > want + 3 * SLICE_NS + want / 50 {
                     fail("limit-stale", format!("op {oi}: the socket's receive timeout is {} us but a silent hooked recv returned after {} us", want / 1000, dt / 1000));
                 }
                 io_done[s] = true;
@@ -771,14 +783,15 @@ fn gen_timed(g: &mut Rng, _tier: Tier) -> J {
         "poll" => *g.pick(&[0u64, 1_000_000, 7_000_000, 10_000_000, 35_000_000, 1_000_000_000, 3_000_000_000]),
         _ => *g.pick(&[0u64, 1_000, 999_000, 1_000_000, 7_000_000, 10_000_000, 35_000_000, 1_000_000_000, 3_000_000_000]),
     };
-    let invalid = if matches!(call, "nanosleep" | "select" | "cond") && g.chance(1, 6) { *g.pick(&["neg_sec", "neg_sub", "big_sub"]) } else { "" };
+    // Linux normalises a select() timeval whose tv_usec is 1e6 or more instead of rejecting it
+    let invalid = if matches!(call, "nanosleep" | "select" | "cond") && g.chance(1, 6) { *g.pick(if call == "select" { &["neg_sec", "neg_sub", "neg_sub"] } else { &["neg_sec", "neg_sub", "big_sub"] }) } else { "" };
     obj! {
         "call" => call,
         "ns" => ns,
         "invalid" => invalid,
         "caller" => if g.chance(1, 2) { "thread" } else { "coroutine" },
         "busy_sibling" => g.chance(1, 4),
-        "sim" => gen_sim(g, SimOpts { max_points: 3_000_000, max_sim_ms: 60_000, stall: false, ..SimOpts::default() }),
+        "sim" => gen_sim(g, SimOpts { max_points: 3_000_000, max_sim_ms: 60_000, stall: false, timing: true, ..SimOpts::default() }),
     }
 }
 
@@ -879,7 +892,10 @@ fn body_timed(plan: &J) {
     init_runtime(1, 0, 8);
     let call = plan.gs("call").to_string();
     let ns = plan.gu("ns");
-    let invalid = plan.gs("invalid").to_string();
+    let mut invalid = plan.gs("invalid").to_string();
+    if call == "select" && invalid == "big_sub" {
+        invalid.clear();
+    }
     let coroutine = plan.gs("caller") == "coroutine";
     let busy = plan.gb("busy_sibling");
     let stop_flag = std::sync::Arc::new(std::sync::atomic::AtomicBool::new(false));
@@ -986,7 +1002,7 @@ fn gen_sleepers(g: &mut Rng, _tier: Tier) -> J {
         "kind" => *g.pick(&["usleep", "nanosleep", "usleep"]),
         "sibling" => g.chance(2, 3),
         "receivers" => g.below(3),
-        "sim" => gen_sim(g, SimOpts { max_points: 4_000_000, max_sim_ms: 30_000, ..SimOpts::default() }),
+        "sim" => gen_sim(g, SimOpts { max_points: 4_000_000, max_sim_ms: 30_000, timing: true, ..SimOpts::default() }),
     }
 }
 
